@@ -18,21 +18,27 @@
 (*   (handler entered) -> returned.                                        *)
 (***************************************************************************)
 EXTENDS Integers, FiniteSets, Sequences
-CONSTANTS NC, NR, Limit, Mutant
+CONSTANTS NC, NR, Limit, Mutant, BigC
 
 Conns == 1..NC
 Rpcs  == 1..NR
 OKc == 0  Canceled == 1  Unavailable == 14  NoCode == 99
 HCodes == {0, 7}     \* statuses a handler returns: OK, PERMISSION_DENIED
 
-VARIABLES cl, clcode, sv, ctxd, hcode, gs, stopped, late, killed
-vars == <<cl, clcode, sv, ctxd, hcode, gs, stopped, late, killed>>
+\* big[c][r]: the RPC is a "late reader": its handler sends one message larger than the client's stream
+\* flow-control window before it returns, and the client application reads only when the driver says so
+\* (Read).  blk[c][r]: the handler has returned but data and trailers are still queued in the server
+\* transport behind the client's flow control; the client still holds the stream, so the connection
+\* stays up during a GracefulStop until the client has read the response and the handler's status.
+VARIABLES cl, clcode, sv, ctxd, hcode, gs, stopped, late, killed, big, blk
+vars == <<cl, clcode, sv, ctxd, hcode, gs, stopped, late, killed, big, blk>>
 
 Running(s, c) == {r \in Rpcs : s[c][r] = "running"}
 Pending(s, c) == {r \in Rpcs : s[c][r] = "pending"}
 ReaderBlocked(s, c) == Pending(s, c) # {}
 ClientOpen(k, c) == {r \in Rpcs : k[c][r] = "open"}
 Busy(s) == \E c \in Conns, r \in Rpcs : s[c][r] \in {"pending", "running"}
+Held(bl) == \E c \in Conns, r \in Rpcs : bl[c][r]      \* a connection kept up by an undelivered response
 
 \* the handler quota: a pending stream gets its handler as soon as fewer than Limit handlers of the
 \* connection are running (release wakes the parked acquire).  Mutant 1: the quota is not enforced.
@@ -45,7 +51,7 @@ Ctx(s, k, st, old) == [c \in Conns |-> [r \in Rpcs |->
                  s[c][r] = "running" /\ (old[c][r] \/ st \/ (k[c][r] = "cancelled" /\ ~ReaderBlocked(s, c)))]]
 \* GracefulStop returns when every connection is gone and handlersWG is zero.
 \* Mutant 2: it does not wait for handlers.
-GsNext(g, s) == IF g = "called" /\ (Mutant = 2 \/ ~Busy(s)) THEN "returned" ELSE g
+GsNext(g, s, bl, st) == IF g = "called" /\ (Mutant = 2 \/ (~Busy(s) /\ (st \/ ~Held(bl)))) THEN "returned" ELSE g
 
 Init == /\ cl = [c \in Conns |-> [r \in Rpcs |-> "idle"]]
         /\ clcode = [c \in Conns |-> [r \in Rpcs |-> NoCode]]
@@ -55,6 +61,8 @@ Init == /\ cl = [c \in Conns |-> [r \in Rpcs |-> "idle"]]
         /\ gs = "no" /\ stopped = FALSE
         /\ late = [c \in Conns |-> [r \in Rpcs |-> FALSE]]
         /\ killed = [c \in Conns |-> [r \in Rpcs |-> FALSE]]
+        /\ big = [c \in Conns |-> [r \in Rpcs |-> FALSE]]
+        /\ blk = [c \in Conns |-> [r \in Rpcs |-> FALSE]]
 
 \* the driver starts RPC (c, r): in order within a connection, connection c only after c-1 was used
 \* (symmetry), only while the client has stream quota (MAX_CONCURRENT_STREAMS = Limit) and while the
@@ -64,8 +72,9 @@ CanStart(c, r) == /\ cl[c][r] = "idle"
                   /\ (c > 1 => cl[c-1][1] # "idle")
                   /\ Cardinality(ClientOpen(cl, c)) < Limit
                   /\ ~ReaderBlocked(sv, c)
-Start(c, r) ==
+StartWith(c, r, b) ==
    /\ CanStart(c, r)
+   /\ big' = [big EXCEPT ![c][r] = b] /\ UNCHANGED blk
    /\ IF gs # "no" \/ stopped
         THEN \* listener closed, connection draining or closed: the RPC fails UNAVAILABLE
              /\ cl' = [cl EXCEPT ![c][r] = "done"]
@@ -77,26 +86,33 @@ Start(c, r) ==
              /\ cl' = k2 /\ sv' = s2 /\ ctxd' = Ctx(s2, k2, stopped, ctxd)
              /\ UNCHANGED <<clcode, late>>
    /\ UNCHANGED <<hcode, gs, stopped, killed>>
+Start(c, r)    == cl[c][r] = "idle" /\ StartWith(c, r, FALSE)
+StartBig(c, r) == cl[c][r] = "idle" /\ c <= BigC /\ r = 1 /\ StartWith(c, r, TRUE)
 
 Cancel(c, r) ==
    /\ cl[c][r] = "open"
    /\ LET k2 == [cl EXCEPT ![c][r] = "cancelled"] IN
-      /\ cl' = k2 /\ clcode' = [clcode EXCEPT ![c][r] = Canceled]
+      \* (a late reader already killed by Stop finds the connection error when its application wakes up)
+      /\ cl' = k2 /\ clcode' = [clcode EXCEPT ![c][r] = IF killed[c][r] THEN Unavailable ELSE Canceled]
       /\ ctxd' = Ctx(sv, k2, stopped, ctxd)
-   /\ UNCHANGED <<sv, hcode, gs, stopped, late, killed>>
+   /\ blk' = [blk EXCEPT ![c][r] = FALSE]
+   /\ gs' = GsNext(gs, sv, blk', stopped)
+   /\ UNCHANGED <<sv, hcode, stopped, late, killed, big>>
 
 \* the driver lets the handler of (c, r) return status code k (g: GracefulStop state before)
 FinishWith(c, r, k, g) ==
    /\ sv[c][r] = "running" /\ k \in HCodes
    /\ LET s1 == [sv EXCEPT ![c][r] = "returned"]  s2 == Promote(s1)
-          deliver == cl[c][r] = "open"                 \* otherwise cancelled or failed by Stop
+          hold == big[c][r] /\ cl[c][r] = "open" /\ ~killed[c][r]   \* response waits for the client to read
+          deliver == cl[c][r] = "open" /\ ~big[c][r]  \* otherwise cancelled, failed by Stop, or not read yet
           k2 == IF deliver THEN [cl EXCEPT ![c][r] = "done"] ELSE cl IN
       /\ sv' = s2 /\ cl' = k2
       /\ clcode' = IF deliver THEN [clcode EXCEPT ![c][r] = k] ELSE clcode
       /\ hcode' = [hcode EXCEPT ![c][r] = k]
       /\ ctxd' = Ctx(s2, k2, stopped, ctxd)
-      /\ gs' = GsNext(g, s2)
-   /\ UNCHANGED <<stopped, late, killed>>
+      /\ blk' = [blk EXCEPT ![c][r] = hold]
+      /\ gs' = GsNext(g, s2, blk', stopped)
+   /\ UNCHANGED <<stopped, late, killed, big>>
 Finish(c, r, k) == sv[c][r] = "running" /\ FinishWith(c, r, k, gs)
 
 \* GracefulStop.  While the reader goroutine of a connection is parked in the handler quota it holds
@@ -108,20 +124,22 @@ NoneParked == \A c \in Conns : ~ReaderBlocked(sv, c)
 \* GracefulStop may also follow a Stop that has returned (no reader parked: every connection is gone):
 \* it still has to wait for the handlers that outlive the Stop.
 GStop == /\ gs = "no" /\ NoneParked
-         /\ gs' = GsNext("called", sv)
-         /\ UNCHANGED <<cl, clcode, sv, ctxd, hcode, stopped, late, killed>>
+         /\ gs' = GsNext("called", sv, blk, stopped)
+         /\ UNCHANGED <<cl, clcode, sv, ctxd, hcode, stopped, late, killed, big, blk>>
 GFinish(c, r, k) == /\ gs = "no" /\ ~stopped
                     /\ ReaderBlocked(sv, c) /\ \A d \in Conns \ {c} : ~ReaderBlocked(sv, d)
                     /\ FinishWith(c, r, k, "called")
 
 \* Stop while no GracefulStop is in progress: every transport is closed
+\* (a late reader that is still open learns about it only when it reads)
 HStop == /\ ~stopped /\ gs = "no"
          /\ stopped' = TRUE
          /\ killed' = [c \in Conns |-> [r \in Rpcs |-> cl[c][r] = "open"]]
-         /\ cl' = [c \in Conns |-> [r \in Rpcs |-> IF cl[c][r] = "open" THEN "done" ELSE cl[c][r]]]
-         /\ clcode' = [c \in Conns |-> [r \in Rpcs |-> IF cl[c][r] = "open" THEN Unavailable ELSE clcode[c][r]]]
+         /\ cl' = [c \in Conns |-> [r \in Rpcs |-> IF cl[c][r] = "open" /\ ~big[c][r] THEN "done" ELSE cl[c][r]]]
+         /\ clcode' = [c \in Conns |-> [r \in Rpcs |-> IF cl[c][r] = "open" /\ ~big[c][r] THEN Unavailable ELSE clcode[c][r]]]
          /\ ctxd' = Ctx(sv, cl', TRUE, ctxd)
-         /\ UNCHANGED <<sv, hcode, gs, late>>
+         /\ blk' = [c \in Conns |-> [r \in Rpcs |-> FALSE]]
+         /\ UNCHANGED <<sv, hcode, gs, late, big>>
 
 \* Stop while GracefulStop is waiting ("force").  GracefulStop holds Server.mu while it waits for
 \* handlersWG, so Stop may have to wait for it; in this step the handlers are obedient: each returns
@@ -130,15 +148,25 @@ HStop == /\ ~stopped /\ gs = "no"
 FStop == /\ ~stopped /\ gs = "called"
          /\ stopped' = TRUE
          /\ killed' = [c \in Conns |-> [r \in Rpcs |-> cl[c][r] = "open"]]
-         /\ cl' = [c \in Conns |-> [r \in Rpcs |-> IF cl[c][r] = "open" THEN "done" ELSE cl[c][r]]]
-         /\ clcode' = [c \in Conns |-> [r \in Rpcs |-> IF cl[c][r] = "open" THEN Unavailable ELSE clcode[c][r]]]
+         /\ cl' = [c \in Conns |-> [r \in Rpcs |-> IF cl[c][r] = "open" /\ ~big[c][r] THEN "done" ELSE cl[c][r]]]
+         /\ clcode' = [c \in Conns |-> [r \in Rpcs |-> IF cl[c][r] = "open" /\ ~big[c][r] THEN Unavailable ELSE clcode[c][r]]]
+         /\ blk' = [c \in Conns |-> [r \in Rpcs |-> FALSE]]
          /\ sv' = [c \in Conns |-> [r \in Rpcs |-> IF sv[c][r] \in {"pending", "running"} THEN "returned" ELSE sv[c][r]]]
          /\ hcode' = [c \in Conns |-> [r \in Rpcs |-> IF sv[c][r] \in {"pending", "running"} THEN Canceled ELSE hcode[c][r]]]
          /\ ctxd' = [c \in Conns |-> [r \in Rpcs |-> FALSE]]
          /\ gs' = "returned"
-         /\ UNCHANGED late
+         /\ UNCHANGED <<late, big>>
 
-Next == \/ \E c \in Conns, r \in Rpcs : Start(c, r) \/ Cancel(c, r)
+\* the application of a late-reader RPC reads: it receives the queued message and the handler's status,
+\* or, when Stop closed the connection in between, an error
+Read(c, r) == /\ big[c][r] /\ cl[c][r] = "open" /\ (blk[c][r] \/ killed[c][r])
+              /\ cl' = [cl EXCEPT ![c][r] = "done"]
+              /\ clcode' = [clcode EXCEPT ![c][r] = IF killed[c][r] THEN Unavailable ELSE hcode[c][r]]
+              /\ blk' = [blk EXCEPT ![c][r] = FALSE]
+              /\ gs' = GsNext(gs, sv, blk', stopped)
+              /\ UNCHANGED <<sv, ctxd, hcode, stopped, late, killed, big>>
+
+Next == \/ \E c \in Conns, r \in Rpcs : Start(c, r) \/ StartBig(c, r) \/ Cancel(c, r) \/ Read(c, r)
         \/ \E c \in Conns, r \in Rpcs, k \in HCodes : Finish(c, r, k) \/ GFinish(c, r, k)
         \/ GStop \/ HStop \/ FStop
 
@@ -162,6 +190,6 @@ I_NoAcceptAfter == \A c \in Conns, r \in Rpcs : late[c][r] => sv[c][r] = "none" 
 \* Stop cancels every handler's context and unfinished RPCs end non-OK at the client
 I_StopCancels == stopped => \A c \in Conns, r \in Rpcs :
       /\ (sv[c][r] = "running" => ctxd[c][r])
-      /\ cl[c][r] # "open"
-      /\ (killed[c][r] => clcode[c][r] # OKc)
+      /\ (cl[c][r] # "open" \/ big[c][r])
+      /\ ((killed[c][r] /\ cl[c][r] = "done") => clcode[c][r] # OKc)
 ====
